@@ -481,6 +481,57 @@ PLANS.update({
 })
 
 
+O_EVERY = list(range(12, 60))      # all 16 boolean combinations x limits 0, 1, 5
+
+
+def both(stage_v5, stage_v4):
+    return [stage_v5, stage_v4]
+
+
+PLANS.update({
+    'C04': {
+        'quick': [
+            A_words('w4', 4, 'full'), A_words('w4L', 4, 'full', legacy=True),
+            A_decode('dec', 1), A_decode('decL', 1, legacy=True),
+            AP('d1', [1, 2, 5, 6, 7, 8, 9], O_EVERY, [1, 2, 8, 9], [1], 1),
+            AP('d2', [5, 6], [1, 7], [1, 8], [1], 2),
+            AP('d1L', S_ALL, [1, 2, 9], V_ALL, [1], 1, legacy=True),
+            AP('d2L', [5, 6], [1], [1, 8], [1], 2, legacy=True),
+            A_merge('m1', 'merge', 2, 2, 1), A_merge('df', 'diff', 2, 2, 1), A_equal('eq', 2, triples=False),
+            A_merge('m1L', 'merge', 2, 2, 1, legacy=True), A_merge('dfL', 'diff', 2, 2, 1, legacy=True),
+            A_equal_legacy('eqL', 2),
+        ],
+        'thorough': [
+            A_words('w5', 5, 'full', timeout=9000), A_words('w5L', 5, 'full', legacy=True, timeout=9000),
+            A_decode('dec', 2), A_decode('decL', 2, legacy=True),
+            AP('d1', S_ALL, O_EVERY, V_ALL, [1], 1, timeout=9000),
+            AP('d2', [5, 6, 10], [1, 7, 11], [1, 6, 8, 9], [1, 8, 9], 2, timeout=9000),
+            AP('d1L', S_ALL, [1, 2, 9], V_ALL, [1], 1, legacy=True),
+            AP('d2L', [5, 6, 10], [1, 2], [1, 6, 8, 9], [1, 8, 9], 2, legacy=True, timeout=9000),
+            A_merge('m1', 'merge', 3, 2, 1, timeout=9000), A_merge('df', 'diff', 3, 2, 1, timeout=9000), A_equal('eq', 3, triples=False, timeout=9000),
+            A_merge('m1L', 'merge', 3, 2, 1, legacy=True, timeout=9000), A_merge('dfL', 'diff', 3, 2, 1, legacy=True, timeout=9000),
+            A_equal_legacy('eqL', 2),
+            A_history('h3', 3, 1, 'full', rworkers=1, timeout=9000),
+        ],
+        'rule': 'the oracle is "the call returned" (recover() around every call, a watchdog per call); the inputs are the state spaces of the other '
+                'engines, for the v5 module AND the staged legacy package: every word of the bounded JSON language (valid, first-error and '
+                'truncated texts, bare and wrapped in white space) given to every []byte parameter of every entry point, as a document under '
+                'five probe patches x six option sets (incl. replace "" null followed by further operations, tests against [null], copies '
+                'of the root) and as a patch on six probe documents (incl. null and [null]); the full mutation table of patch documents '
+                'applied whenever DecodePatch accepts; all one-operation behaviours under EVERY combination of the four option booleans x '
+                'limits {0,1,5}; two-operation behaviours; the merge / diff / equal universes; only panics and hangs count, '
+                'what a call returns is judged by the other properties; distinct_nontrivial counts distinct inputs',
+        'exhaustive': True,
+        'assumptions': PATCH_ASSUME[:1] + MERGE_ASSUME[:1] + TEXT_ASSUME[:1] + [
+            'nil *ApplyOptions, hand-assembled Patch values and indices above 10^4 under EnsurePathExistsOnAdd are outside the stated domain',
+            'arbitrary random bytes beyond the bounded language and the mutation tables are not claimed (DESIGN.md section 8)'],
+        'required_labels': {t: ['Word_invalid', 'Word_valid_obj', 'Word_valid_null', 'Decode_true', 'Decode_false', 'AddEnsure',
+                                'RemoveSkippedMember', 'CopyOverLimit', 'Merge_obj', 'Create_obj', 'Equal_true', 'TestPass']
+                            for t in ('quick', 'thorough')},
+    },
+})
+
+
 def replay_file(ctx, plan, path):
     """Re-run one recorded case (bin/check <id> --replay <file>)."""
     v = json.load(open(path))
